@@ -15,7 +15,7 @@ import z3
 
 from pyvc.core import (SV, SInt, SBool, SSeq, SDict, Obj, Val, VNone, BoolS, IntS, to_val, to_int, to_bool_term,
                        run, run_raises)
-from pyvc.core import Unsupported
+from pyvc.core import Unsupported, Stub
 from pyvc.driver import Ob, cover_hyps
 from pyvc.ground import Q
 from pyvc.expr import seq_of
@@ -320,6 +320,7 @@ def _fbv_one(chk, func, pi, path, out, obls, cur, hint_n, hidx, hint_name, spec_
 
 
 def obligations(chk):
+    constructor_obligations(chk)
     I = R.make_interp()
     for mod, cls, kind in R.COMPOSITES:
         call_clauses(chk, I, mod, cls, kind)
@@ -490,3 +491,69 @@ def slots_scan_obligation(chk, I):
                             bad.append(f"{m}.{node.name}")
     chk.add(Ob("typelib.(un)marshals.routines.*.__slots__", "no-slot-named-_resolved", "ast-scan", [],
                z3.BoolVal(not bad), {"classes_scanned": n, "bad": bad}))
+
+
+# ----------------------------------------------------------------------------- constructors: the class invariant the __call__ contracts assume
+def constructor_obligations(chk):
+    """Every contract above describes a routine object by its attributes (t, origin, context, var, caster, values,
+    fields_by_var, _resolved): here the constructors are run on an arbitrary annotation and context and proved to establish
+    exactly that - t is the annotation given, origin is inspection.origin(t), context / var are the arguments unchanged,
+    the cast target is the origin, the literal values are inspection.args(t) (evaluated on the unmarshal side), the structured
+    field table is whatever `_fields_by_var()` returns (its own clauses are above), a delayed proxy starts unresolved."""
+    import ast as _ast
+    from pyvc.core import Closure
+    cases = [(R.UN, "AbstractUnmarshaller", {}), (R.MA, "AbstractMarshaller", {}),
+             (R.UN, "CastUnmarshaller", {"caster": "origin"}), (R.UN, "LiteralUnmarshaller", {"values": "args"}),
+             (R.MA, "LiteralMarshaller", {"values": "args"}),
+             (R.UN, "StructuredTypeUnmarshaller", {"fields_by_var": "fbv"}), (R.MA, "StructuredTypeMarshaller", {"fields_by_var": "fbv"}),
+             ("typelib.unmarshals.api", "DelayedUnmarshaller", {"_resolved": "none"}), ("typelib.marshals.api", "DelayedMarshaller", {"_resolved": "none"})]
+    for mod, cls, extra in cases:
+        I = R.make_interp()
+        func = f"{mod}.{cls}.__init__"
+        fbv = z3.Function("fields_by_var_result", Val, Val)
+        for m_ in (R.UN, R.MA):
+            for c_ in ("StructuredTypeUnmarshaller", "StructuredTypeMarshaller"):
+                if c_.endswith("Unmarshaller") == (m_ == R.UN):
+                    I.stubs[f"{m_}.{c_}._fields_by_var"] = Stub("_fields_by_var", lambda I, p, a, k: SV(fbv(to_val(a[0].fields["t"]))), None)
+
+        def mk(I, path, mod=mod, cls=cls):
+            for a in R.routine_axioms():
+                path.assume(a)
+            t, v = path.fresh("t"), path.fresh("var")
+            c = rw.Ctx(path.fresh("ctx"))
+            slf = rw.routine_self(I, mod, cls, {})
+            return [slf, SV(t), c], {"var": SV(v)}, {"t": t, "v": v, "ctx": c, "self": slf}
+        names = ["t-origin-context-var-are-the-annotation-its-origin-and-the-arguments-unchanged"] + \
+                (["the-extra-attribute-is-what-the-call-contracts-assume"] if extra else [])
+        results = I.run_function(func, mk)
+        for pi, (path, out, obls, writes, cur) in enumerate(results):
+            pid, hy = f"p{pi}", path.hyps
+            f = cur["self"].fields
+            if out.kind not in ("ret", "end"):
+                for nm in names:
+                    chk.add(Ob(func, nm, pid, hy, z3.BoolVal(False), {"outcome": out.kind, "why": str(out.value if out.kind != "raise" else out.exc.exc_cls)[:160]}))
+                continue
+            t, v = cur["t"], cur["v"]
+            ok = all(k in f for k in ("t", "origin", "context", "var")) and f.get("context") is cur["ctx"]
+            goal = z3.And(to_val(f["t"]) == t, to_val(f["origin"]) == rw.origin_f(t), to_val(f["var"]) == v) if ok else z3.BoolVal(False)
+            chk.add(Ob(func, names[0], pid, hy, goal))
+            for attr_, what in extra.items():
+                if attr_ not in f:
+                    g = z3.BoolVal(False)
+                elif what == "origin":
+                    g = to_val(f[attr_]) == rw.origin_f(t)
+                elif what == "none":
+                    g = z3.BoolVal(f[attr_] is None)
+                elif what == "fbv":
+                    g = to_val(f[attr_]) == fbv(t)
+                else:   # the member annotations of t, in order
+                    sq = f[attr_]
+                    j = path.fresh("j", IntS)
+                    from pyvc.expr import seq_of, _len_term
+                    s_ = seq_of(sq)
+                    g = z3.BoolVal(False) if s_ is None else z3.And(_len_term(s_.length) == rw.nargs(t),
+                                                                   z3.Implies(z3.And(j >= 0, j < rw.nargs(t)), to_val(s_.at(SInt(j))) == rw.arg(t, j)))
+                chk.add(Ob(func, names[1], pid, hy, g, {"attribute": attr_}))
+        if results:
+            chk.add(Ob(func, "cover", "pre", cover_hyps(results), z3.BoolVal(True), expect="sat"))
+        chk.trusted.update(I.assumed_used)
